@@ -1,1 +1,302 @@
-/- property theorems for C07 (filled in below) -/
+/-
+C07 — Coxeter automata accept exactly the geodesic / shortlex normal forms.   (PARTIAL)
+
+Only property theorems and non-vacuity examples live here; helper lemmas are in
+`GT.Lemmas.CoxAut`.  Model: `GT.Model.CoxAut`.
+
+What is proved: the *structural* clauses — the constructed automaton is a well-formed partial
+DFA, accepts no word containing `kk`, the shortlex language is contained in the geodesic
+language, the even-length variant accepts exactly the even-length accepted words, and braid
+moves / `ss`-deletions preserve the group element (Mathlib `CoxeterSystem`), so a shortening
+move sequence is a kernel-checkable certificate that a word is not reduced.
+
+NOT PROVED — kept as a comment, never as a theorem (Mathlib has no root systems of Coxeter
+groups, no exchange/deletion condition, no Matsumoto theorem, no dominance order; formalising
+Brink–Howlett is out of reach here):
+
+    -- for every Coxeter matrix M with small roots computed by `findSmallRoots` (ε = 0):
+    --   (generateAutomaton … false …).accepts w  ↔  cs.IsReduced w
+    --   (generateAutomaton … true  …).accepts w  ↔  cs.IsReduced w ∧ ∀ w', cs.IsReduced w' →
+    --        cs.wordProd w' = cs.wordProd w → w ≤ w'   (lexicographic in the generator order)
+    --   hence: #accepted words of length ℓ = #{g | ℓ(g) = ℓ}, and distinct accepted shortlex
+    --   words have distinct images under the faithful canonical representation.
+    --   Also not proved: termination of `findSmallRoots` (the Brink–Howlett finiteness theorem).
+
+These clauses are covered only by the bounded comparison in `props/C07.py`, which is a test.
+-/
+import GT.Lemmas.CoxAut
+import Mathlib.GroupTheory.Coxeter.Length
+import Mathlib.Logic.Relation
+
+namespace GT.C07
+open GT.CoxAut
+
+/-! ## the constructed automaton is a well-formed partial DFA -/
+
+/-- `generate_automaton` returns a partial DFA on the states `0..N-1`: one row per discovered
+node, the start node (all zeros) is state `0`, every row has one entry per generator, and every
+transition target is a state.  (Determinism is built into the table type: at most one target
+per state and letter.) -/
+theorem automaton_wf {nb : Nat → Nat → Option Nat} {nroots rank : Nat} {lex : Bool} {fuel : Nat}
+    {N : List (List Bool)} {A : Table}
+    (h : generateAutomaton nb nroots rank lex fuel = some (N, A)) :
+    A.length = N.length ∧ N[0]? = some (List.replicate nroots false) ∧
+      (∀ row ∈ A, row.length = rank) ∧
+      ∀ s k t, A.step s k = some t → k < rank ∧ t < A.length := by
+  have hF := final_of_bfs (succNode nb lex nroots) rank h
+  refine ⟨hF.len, hF.start, ?_, ?_⟩
+  · intro row hr
+    obtain ⟨s, hs, rfl⟩ := List.getElem_of_mem hr
+    have hs' : s < N.length := by rw [← hF.len]; exact hs
+    exact (hF.rows s N[s] A[s] (List.getElem?_eq_getElem hs') (List.getElem?_eq_getElem hs)).1
+  · intro s k t hst
+    have hs : s < N.length := by
+      rw [← hF.len]
+      unfold Table.step at hst
+      rcases Nat.lt_or_ge s A.length with h' | h'
+      · exact h'
+      · rw [List.getElem?_eq_none h'] at hst; cases hst
+    obtain ⟨hk, _, hn⟩ := hF.step_some (List.getElem?_eq_getElem hs) hst
+    refine ⟨hk, ?_⟩
+    rw [hF.len]
+    rcases Nat.lt_or_ge t N.length with h' | h'
+    · exact h'
+    · rw [List.getElem?_eq_none h'] at hn; cases hn
+
+/-- the table is exactly the tabulation of the run on small-root sets: a word is accepted iff
+every letter `k` is read at a node whose bit `k` is clear -/
+theorem accepts_iff_run {nb : Nat → Nat → Option Nat} {nroots rank : Nat} {lex : Bool} {fuel : Nat}
+    {N : List (List Bool)} {A : Table}
+    (h : generateAutomaton nb nroots rank lex fuel = some (N, A)) (w : List Nat) :
+    A.accepts w ↔ (run (succNode nb lex nroots) rank (List.replicate nroots false) w).isSome := by
+  have hF := final_of_bfs (succNode nb lex nroots) rank h
+  obtain ⟨h1, h2⟩ := hF.follow_run w 0 _ hF.start
+  unfold Table.accepts
+  constructor
+  · intro ha
+    obtain ⟨t, ht⟩ := Option.isSome_iff_exists.1 ha
+    obtain ⟨node', _, hr⟩ := h1 t ht
+    rw [hr]; rfl
+  · intro hr
+    obtain ⟨node', hn⟩ := Option.isSome_iff_exists.1 hr
+    obtain ⟨t, ht, _⟩ := h2 node' hn
+    rw [ht]; rfl
+
+/-- **no accepted word contains `kk`**: after reading `k` the state has bit `k` set, and a set
+bit `k` suppresses the `k`-transition (`rank ≤ nroots`: the simple roots are small roots) -/
+theorem no_square {nb : Nat → Nat → Option Nat} {nroots rank : Nat} {lex : Bool} {fuel : Nat}
+    {N : List (List Bool)} {A : Table}
+    (h : generateAutomaton nb nroots rank lex fuel = some (N, A)) (hr : rank ≤ nroots)
+    (u v : List Nat) (k : Nat) : ¬ A.accepts (u ++ k :: k :: v) := by
+  rw [accepts_iff_run h, run_append]
+  cases hu : run (succNode nb lex nroots) rank (List.replicate nroots false) u with
+  | none => simp
+  | some x =>
+    have hnone : run (succNode nb lex nroots) rank x (k :: k :: v) = none := by
+      by_cases hc : k < rank ∧ x.getD k false = false
+      · have hb : (succNode nb lex nroots k x).getD k false = true := by
+          rw [succNode_getD, if_pos (Nat.lt_of_lt_of_le hc.1 hr), applyGenToNode_self]
+        have h2 : ¬ (k < rank ∧ (succNode nb lex nroots k x).getD k false = false) := by
+          rintro ⟨_, h⟩; rw [hb] at h; cases h
+        rw [run, if_pos hc, run, if_neg h2]
+      · rw [run, if_neg hc]
+    simp [hnone]
+
+/-- **every shortlex-accepted word is geodesic-accepted**: along any word the lex-pruned node
+contains the unpruned node, and a letter allowed at the larger node is allowed at the smaller -/
+theorem shortlex_subset_geodesic {nb : Nat → Nat → Option Nat} {nroots rank : Nat} {f₁ f₂ : Nat}
+    {N₁ N₂ : List (List Bool)} {A_lex A_geo : Table}
+    (h₁ : generateAutomaton nb nroots rank true f₁ = some (N₁, A_lex))
+    (h₂ : generateAutomaton nb nroots rank false f₂ = some (N₂, A_geo)) (w : List Nat) :
+    A_lex.accepts w → A_geo.accepts w := by
+  rw [accepts_iff_run h₁, accepts_iff_run h₂]
+  intro ha
+  obtain ⟨x', hx⟩ := Option.isSome_iff_exists.1 ha
+  obtain ⟨y', hy, _⟩ := run_mono nb nroots rank w _ _ x' (fun p hp => hp) hx
+  rw [hy]; rfl
+
+/-! ## the even-length variant -/
+
+/-- **even variant, transition level**: a sequence of 2-letter labels is a path of
+`automaton_multiple(2)`'s transition relation iff the concatenated word is a path of the
+original automaton (same end state).  Every word of even length is `unblock` of exactly one
+label sequence, so the product automaton accepts exactly the accepted words of even length. -/
+theorem even_step (A : Table) (s : Nat) (ps : List (Nat × Nat)) :
+    follow2 A s ps = A.follow s (unblock ps) := by
+  induction ps generalizing s with
+  | nil => rfl
+  | cons p ps ih =>
+    simp only [follow2, unblock, List.flatMap_cons, List.cons_append, List.nil_append,
+      Table.follow, Table.step2]
+    cases h1 : A.step s p.1 with
+    | none => simp
+    | some t =>
+      simp only [Option.bind_some]
+      cases h2 : A.step t p.2 with
+      | none => simp
+      | some t' => simp only [Option.bind_some]; exact ih t'
+
+/-- **even variant**: the automaton built by `automaton_multiple(2)` (breadth-first from the start
+state, as the code does it) follows a sequence of 2-letter labels exactly as the original automaton
+follows the concatenated word — same end state, same acceptance.  Together with `exists_unblock`
+and `unblock_length`: it accepts exactly the accepted words of even length. -/
+theorem even_variant {A : Table} {rank fuel : Nat} {E : EvenG} (hA : ∀ row ∈ A, row.length ≤ rank)
+    (h : evenAutomaton A rank fuel = some E) (ps : List (Nat × Nat)) :
+    E.follow 0 ps = A.follow 0 (unblock ps) := by
+  obtain ⟨vis, hI⟩ := evenBfs_spec A rank hA fuel [0] [] [] E h
+    ⟨fun v => by simp, fun v hv => (by cases hv), Or.inr (by simp)⟩
+  have h0 : 0 ∈ vis := by
+    rcases hI.start with h | h
+    · exact h
+    · cases h
+  rw [even_follow A rank hA vis E hI ps 0 h0, even_step]
+
+theorem unblock_length (ps : List (Nat × Nat)) : (unblock ps).length = 2 * ps.length := by
+  induction ps with
+  | nil => rfl
+  | cons p ps ih => simp only [unblock, List.flatMap_cons, List.length_append, List.length_cons,
+      List.length_nil] at ih ⊢; omega
+
+/-- every word of even length is the block word of a label sequence -/
+theorem exists_unblock (w : List Nat) (h : w.length % 2 = 0) : ∃ ps, unblock ps = w := by
+  induction hn : w.length using Nat.strong_induction_on generalizing w with
+  | _ n ih =>
+    match w, hn with
+    | [], _ => exact ⟨[], rfl⟩
+    | [a], hn => simp at h
+    | a :: b :: w', hn =>
+      obtain ⟨ps, hps⟩ := ih w'.length (by simp at hn; omega) w' (by simp at h; omega) rfl
+      exact ⟨(a, b) :: ps, by simp [unblock] at hps ⊢; exact hps⟩
+
+/-! ## braid moves are sound (Mathlib `CoxeterSystem`) -/
+
+section braid
+variable {B W : Type*} [Group W] {M : CoxeterMatrix B} (cs : CoxeterSystem M W)
+
+/-- one rewriting step of Tits' solution of the word problem: a braid move
+`(i j i …)_{m} → (j i j …)_{m}` (`m = M i j`) or the deletion of a square `i i` -/
+inductive Move (M : CoxeterMatrix B) : List B → List B → Prop
+  | braid (u v : List B) (i j : B) :
+      Move M (u ++ CoxeterSystem.braidWord M i j ++ v) (u ++ CoxeterSystem.braidWord M j i ++ v)
+  | square (u v : List B) (i : B) : Move M (u ++ [i, i] ++ v) (u ++ v)
+
+/-- a move does not change the group element -/
+theorem move_sound {w w' : List B} (h : Move M w w') : cs.wordProd w = cs.wordProd w' := by
+  cases h with
+  | braid u v i j =>
+    simp only [CoxeterSystem.wordProd_append, cs.wordProd_braidWord_eq i j]
+  | square u v i =>
+    simp only [CoxeterSystem.wordProd_append, CoxeterSystem.wordProd_cons,
+      CoxeterSystem.wordProd_nil, mul_one, cs.simple_mul_simple_self, mul_one]
+
+/-- **braid_moves_sound**: a word obtained from `w` by braid moves and `ss`-deletions has the
+same `wordProd` -/
+theorem braid_moves_sound {w w' : List B} (h : Relation.ReflTransGen (Move M) w w') :
+    cs.wordProd w = cs.wordProd w' := by
+  induction h with
+  | refl => rfl
+  | tail _ hm ih => rw [ih, move_sound cs hm]
+
+/-- … hence a move sequence that shortens `w` is a certificate that `w` is **not reduced** -/
+theorem not_reduced_of_moves {w w' : List B} (h : Relation.ReflTransGen (Move M) w w')
+    (hl : w'.length < w.length) : ¬ cs.IsReduced w := by
+  intro hr
+  have h1 : cs.length (cs.wordProd w) = w.length := hr
+  have h2 := cs.length_wordProd_le w'
+  rw [← braid_moves_sound cs h, h1] at h2
+  omega
+
+end braid
+
+/-! ## executable certificates -/
+
+section
+variable {B : Type} [DecidableEq B] {W : Type*} [Group W] {M : CoxeterMatrix B} (cs : CoxeterSystem M W)
+
+theorem applyStep_sound {w w' : List B} {s : CertStep} (h : applyStep (fun a b => M a b) w s = some w') :
+    Move M w w' := by
+  cases s with
+  | square pos =>
+    simp only [applyStep] at h
+    split at h
+    · rename_i a b rest hd
+      split at h
+      · rename_i hab
+        subst hab
+        cases h
+        have : w = w.take pos ++ [a, a] ++ rest := by
+          conv_lhs => rw [← List.take_append_drop pos w, hd]
+          simp
+        have key := Move.square (M := M) (w.take pos) rest a
+        rw [← this] at key
+        exact key
+      · cases h
+    · cases h
+  | braid pos =>
+    simp only [applyStep] at h
+    split at h
+    · rename_i a b rest hd
+      split at h
+      · rename_i hc
+        cases h
+        obtain ⟨h1, h2⟩ := hc
+        have hw : w = w.take pos ++ altFrom a b (M a b) ++ w.drop (pos + M a b) := by
+          conv_lhs => rw [← List.take_append_drop pos w, ← List.take_append_drop (M a b) (w.drop pos), h1]
+          simp [List.drop_drop, List.append_assoc]
+        rw [altFrom_eq] at hw
+        rw [altFrom_eq]
+        have hsym : M b a = M a b := M.symmetric b a
+        by_cases he : Even (M a b)
+        · rw [if_pos he] at hw ⊢
+          conv_lhs => rw [hw]
+          have := Move.braid (M := M) (w.take pos) (w.drop (pos + M a b)) a b
+          unfold CoxeterSystem.braidWord at this
+          rw [hsym] at this
+          exact this
+        · rw [if_neg he] at hw ⊢
+          conv_lhs => rw [hw]
+          have := Move.braid (M := M) (w.take pos) (w.drop (pos + M a b)) b a
+          unfold CoxeterSystem.braidWord at this
+          rw [hsym] at this
+          exact this
+      · cases h
+    · cases h
+
+/-- **certificate soundness**: if the executable checker accepts a certificate turning `w` into a
+shorter word, then `w` is not reduced in *any* Coxeter system with that matrix -/
+theorem checkCert_sound : ∀ (steps : List CertStep) (w w' : List B),
+    checkCert (fun a b => M a b) w steps = some w' → Relation.ReflTransGen (Move M) w w'
+  | [], w, w', h => by simp only [checkCert, Option.some.injEq] at h; subst h; exact .refl
+  | s :: ss, w, w', h => by
+    simp only [checkCert] at h
+    cases h1 : applyStep (fun a b => M a b) w s with
+    | none => rw [h1] at h; cases h
+    | some w1 =>
+      rw [h1] at h
+      exact Relation.ReflTransGen.head (applyStep_sound h1) (checkCert_sound ss w1 w' h)
+
+theorem not_reduced_of_cert (steps : List CertStep) (w w' : List B)
+    (h : checkCert (fun a b => M a b) w steps = some w') (hl : w'.length < w.length) :
+    ¬ cs.IsReduced w :=
+  not_reduced_of_moves cs (checkCert_sound steps w w' h) hl
+end
+
+/-! ## non-vacuity -/
+
+/-- the hypotheses of `automaton_wf`, `no_square`, `shortlex_subset_geodesic` are satisfiable:
+the infinite dihedral group (two simple roots, no neighbours) -/
+example : generateAutomaton (fun _ _ => none) 2 2 true 10 =
+    some ([[false, false], [true, false], [false, true]],
+      [[some 1, some 2], [none, some 2], [some 1, none]]) := by decide
+
+/-- `not_reduced_of_moves` applies: in any Coxeter system `i i` is not reduced -/
+example {B W : Type*} [Group W] {M : CoxeterMatrix B} (cs : CoxeterSystem M W) (i : B) :
+    ¬ cs.IsReduced [i, i] :=
+  not_reduced_of_moves cs (w' := []) (Relation.ReflTransGen.single (Move.square [] [] i)) (by simp)
+
+/-- the certificate checker accepts a genuine certificate: in the (3,3,∞)-type matrix with `m(0,1) = 3`
+the word `0 1 0 1` is rewritten by a braid move at 0 to `1 0 1 1` and the square at 2 is deleted -/
+example : checkCert (fun a b : Nat => if a = b then 1 else if a + b = 1 then 3 else 0) [0, 1, 0, 1]
+    [.braid 0, .square 2] = some [1, 0] := by decide
+
+end GT.C07
